@@ -289,7 +289,8 @@ def viewOf (m : Model) (P : ProcInfo) : Option (Task × Body) → Chans
 
 theorem nanos6_dups : Cfg.nanos6.dupType = true ∧ Cfg.nanos6.dupRank = true := by decide
 
-theorem nosv_body : Cfg.nosv.stTaskBody = 11 ∧ Cfg.nanos6.stTaskBody = 1 := ⟨rfl, rfl⟩
+theorem nosv_body : Cfg.nosv.stTaskBody = Ovni.Generated.Nosv.stTaskBody ∧
+    Cfg.nanos6.stTaskBody = Ovni.Generated.Nanos6.stTaskBody := ⟨rfl, rfl⟩
 
 theorem chanSet_ok {dup : Bool} {cur v : Option Int} (h : dup = true ∨ cur ≠ v) :
     chanSet dup cur v = .ok v := by
